@@ -4,13 +4,14 @@
 clause is BOUNDED (native comparison with SciPy's L-BFGS-B).  Proved (trivial VCs, but exactly the silent changes the
 property fears): the reference constants on the signature (ftol_linesearch=1e-3, gtol_linesearch=0.9, xtol_linesearch=0.1,
 eps_SY = machine epsilon) and that they reach DCSRCH(phi, dphi, ftol, gtol, xtol, 0.0, stpmax) and the curvature test
-unmodified (dataflow obligations in units MAIN / LS), the first-step rule, theta = y.y/s.y (unit BFGS).
+unmodified (dataflow obligations in units MAIN / LS), the first-step rule, theta = y.y/s.y (unit BFGS), the freshness
+of the values ScalarFunction hands to the solver (unit SF) and the exactness of factorize_k (LK E LK' == K, m <= 2).
 """
 import ast
 
 from props._mainbased import main_property, selector
 from pyvc.harness import program, UnitReport
-from units import ls_unit, bfgs_unit
+from units import ls_unit, bfgs_unit, sf_unit, subspace_unit
 from units.flow_unit import R
 
 PID = "C12"
@@ -43,10 +44,19 @@ def check(tier, seed):
     ls = ls_unit.run_unit(tier)
     bf = bfgs_unit.run_unit(tier)
     df = defaults_report()
+    # the gradients stored in the history are the user's values, not aliases of a buffer the user may reuse (unit SF);
+    # the LEL' factorization of the middle matrix is exact - no absolute regularisation constant (unit SUBSPACE)
+    sf = sf_unit.run_unit(tier)
+    fk = UnitReport("SUBSPACE")
+    fk.functions |= {"subspacemin.factorize_k"}
+    for m in (1, 2):
+        fk.merge(subspace_unit._work_fk(m))
     return main_property(
         PID, tier, seed, "other",
         "constants and dataflow of the reference algorithm proved; trajectory agreement with SciPy's L-BFGS-B bounded.",
-        extra_reports=[(ls, selector(PID)), (bf, lambda r: "theta" in r.name), (df, lambda r: True)],
+        extra_reports=[(ls, selector(PID)), (bf, lambda r: "theta" in r.name), (df, lambda r: True),
+                       (sf, lambda r: any(k in r.name for k in ("fresh_value", "result_fresh", "post[g]", "post[f]"))),
+                       (fk, lambda r: "factorize_k" in r.name or "cholesky" in r.name)],
         extra_assumptions=["trajectory clause: bounded native comparison with scipy.optimize.minimize(method='L-BFGS-B') "
                            "on unconstrained QP+quartic / QP+softplus / Rosenbrock n<=8, first 12 iterations, compared "
                            "while no documented deviation (first-step rule, lowest-trial acceptance) has fired",
